@@ -501,8 +501,33 @@ C08Prog(t, segs, root) ==
           \o ObsAll(2)
           \o <<[op |-> "law", law |-> "concat_children", r |-> 2, children |-> <<3, 0>>]>>)
 
+(* source names a well-meant "fix" might treat specially: URLs, absolute     *)
+(* paths, parent references, a name that is empty - sourceRoot is applied    *)
+(* to all of them alike                                                      *)
+OddNames == {<<119, 58, 47, 47, 97>>, <<47, 97>>, <<46, 46, 47, 97>>, <<>>, <<97, 92, 98>>, <<104, 116, 116, 112, 58, 47, 47, 120>>}
+C08ProgNamed(t, segs, root, nm) ==
+  LET base == MapOf(segs, root)
+      m == [base EXCEPT !.sources = <<nm, base.sources[2]>>]
+      leaf == [k |-> "sms", b |-> t, name |-> GenName, map |-> m,
+               inner |-> <<>>, osrc |-> <<>>, remove |-> FALSE]
+      four(r) == <<[op |-> "stream", r |-> r, columns |-> TRUE, final |-> FALSE],
+                   [op |-> "stream", r |-> r, columns |-> FALSE, final |-> FALSE],
+                   [op |-> "stream", r |-> r, columns |-> TRUE, final |-> TRUE],
+                   [op |-> "stream", r |-> r, columns |-> FALSE, final |-> TRUE]>>
+  IN Prog(<<[op |-> "build", dst |-> 0, tree |-> leaf]>> \o four(0) \o ObsAll(0)
+          \o <<[op |-> "build", dst |-> 1, tree |-> Default(t, m)]>> \o four(1)
+          \o <<[op |-> "build", dst |-> 3, tree |-> Raw("str", <<cX, NL, cX>>)]>> \o ObsAll(3)
+          \o <<[op |-> "build", dst |-> 2,
+                tree |-> CC(<<[k |-> "reg", r |-> 3], [k |-> "reg", r |-> 0]>>)]>>
+          \o ObsAll(2)
+          \o <<[op |-> "law", law |-> "concat_children", r |-> 2, children |-> <<3, 0>>]>>)
+
 C08Scope ==
   IF Scope # "c08" THEN {} ELSE
+  UNION {UNION {{C08ProgNamed(<<cA, NL, cB>>, sl, root, nm) :
+                   sl \in {x \in C08SegLists(<<cA, NL, cB>>) : Len(x) = 2 /\ x[1].si = 0}} :
+                 root \in Roots} : nm \in OddNames}
+  \cup
   UNION {{C08Prog(t, sl, <<>>) : sl \in C08SegLists(t)} : t \in C08Texts}
   \cup UNION {UNION {{C08Prog(t, sl, root) : sl \in {x \in C08SegLists(t) : Len(x) = 1}} :
                       root \in Roots \ {<<>>}} : t \in {<<cA, cB>>, <<cA, NL, cB>>}}
@@ -726,7 +751,9 @@ SmsInnerFromContent ==
   [SmsInner EXCEPT !.osrc = <<>>, !.map.contents = <<InnerX, ContentA>>]
 
 BaseTrees ==
-  {SmsInnerFromContent, CC(<<Raw("str", <<cA>>), Cached(SmsInnerFromContent)>>),
+  {[k |-> "orig", b |-> <<cA, cB>>, name |-> <<115, 47, 97, 92, 98, 46, 106, 115>>],       \* "s/a\b.js"
+   CC(<<Raw("str", <<cA>>), [k |-> "orig", b |-> <<cB>>, name |-> <<99, 58, 92, 97, 46, 106, 115>>]>>),   \* "c:\a.js"
+   SmsInnerFromContent, CC(<<Raw("str", <<cA>>), Cached(SmsInnerFromContent)>>),
    Raw("str", <<cA, cB>>), Raw("buf", <<cA, cB>>), Raw("rawstr", <<cA, cB>>),
    Raw("rawbuf", <<cA, cB>>), Raw("rawbuf", <<255, cA>>), Orig(<<cA, cSC, NL, cB>>), SmsA, SmsInner,
    CC(<<Orig(<<cA>>), Raw("str", <<cB>>), SmsB>>),
@@ -766,6 +793,11 @@ Edits(t) ==
     [] t.k = "orig" ->
          {[t EXCEPT !.b = e] : e \in TextEdits(t.b)}
          \cup {[t EXCEPT !.name = @ \o <<cX>>]}
+         \* spellings that a well-meant normalisation would identify: the other
+         \* path separator, the other case, a trailing blank
+         \cup {[t EXCEPT !.name = [i \in 1..Len(@) |-> IF @[i] = 47 THEN 92 ELSE IF @[i] = 92 THEN 47 ELSE @[i]]],
+               [t EXCEPT !.name = [i \in 1..Len(@) |-> IF @[i] >= 97 /\ @[i] <= 122 THEN @[i] - 32 ELSE @[i]]],
+               [t EXCEPT !.name = @ \o <<32>>]}
     [] t.k = "sms" ->
          {[t EXCEPT !.b = e] : e \in TextEdits(t.b)}
          \cup {[t EXCEPT !.map = e] : e \in MapEdits(t.map)}
